@@ -242,3 +242,21 @@ func (e *Engine) lookupVSort(s string) types.Type {
 	}
 	return nil
 }
+
+// lookupNamed finds a named type by "pkgname.Type".
+func (e *Engine) lookupNamed(name string) types.Type {
+	i := strings.LastIndex(name, ".")
+	if i < 0 {
+		return nil
+	}
+	pn, tn := name[:i], name[i+1:]
+	for _, p := range e.pkgs {
+		if p.Types == nil || (p.Types.Name() != pn && p.PkgPath != pn) {
+			continue
+		}
+		if obj, ok := p.Types.Scope().Lookup(tn).(*types.TypeName); ok {
+			return obj.Type()
+		}
+	}
+	return nil
+}
